@@ -20,6 +20,10 @@ Arguments f_xp {T}. Arguments f_yl {T}. Arguments f_yp {T}.
 Inductive outcome (T : Type) := Conv (l0 p0 : Z) (dl dp : T) | NoConv.
 Arguments Conv {T}. Arguments NoConv {T}.
 
+(* a 2-D numpy array seen by the element-wise interpolators: its shape[-2:] and its elements *)
+Record arr2 (T : Type) := mk_arr2 { arr_shape : Z * Z; arr_get : Z -> Z -> T }.
+Arguments mk_arr2 {T}. Arguments arr_shape {T}. Arguments arr_get {T}.
+
 Record sstate := mk_st { s_l0 : Z; s_p0 : Z; s_last_l0 : Z; s_last_p0 : Z }.
 
 Section Gradient.
@@ -43,6 +47,13 @@ Section Gradient.
   Definition in_range (lmax pmax l0 p0 : Z) (dl dp : T) : bool :=
     leb OP zeroT (add OP dl (ofZ OP l0)) && leb OP (add OP dl (ofZ OP l0)) (ofZ OP lmax) &&
     leb OP zeroT (add OP dp (ofZ OP p0)) && leb OP (add OP dp (ofZ OP p0)) (ofZ OP pmax).
+
+  (* numpy element-wise primitives used by gradient/__init__.py *)
+  Definition nan_to_num (x : T) (copy : Z) : T := if isnan OP x then ofZ OP 0 else x.   (* np.nan_to_num(x, copy): NaN -> 0.0 *)
+  Definition modfT (y : T) : T * T := (sub OP y (ofZ OP (truncZ OP y)), ofZ OP (truncZ OP y)).   (* np.modf: (fractional, integral) *)
+  Definition whereT (c : bool) (x y : T) : T := if c then x else y.
+  Definition rintT (x : T) : T := ofZ OP (rintZ OP x).                                            (* np.rint, as a float *)
+  Definition clipF (v lo hi : T) : T := fmin OP (fmax OP v lo) hi.                                (* np.clip on floats *)
 
   (* ---------------- the three kernels [fun] ---------------- *)
   (* indices_xy: res[0] = dp + p0 (x), res[1] = dl + l0 (y) *)
